@@ -258,7 +258,7 @@ class ReservedResources():
                 if amount < 0:
                     raise ValueError(f'Trying to release a negative amount of {resource_name}')
                 try:
-                    if amount != 0 and self._reserved_resources[resource_name] < amount:
+                    if self._reserved_resources[resource_name] < amount:
                         raise ValueError(f'Trying to release {amount} of {resource_name} but only ' + \
                                         f'{self._reserved_resources[resource_name]} is reserved.')
                 except KeyError:
